@@ -45,6 +45,11 @@ CHECKS = {
          "Held on the executions observed: ints, floats, hex/octal/binary, underscore, Rust-suffixed, BigInt and unary-minus literals in assignments, calls, returns, defaults, collections, nested scopes and multi-line calls; every documented exemption; random allowed_numbers / max_small_integer; evidence counts occurrences per language and category.",
          "Trusted: the generator's ground truth; numeric comparison of the value named in the message; '-v' with exactly one of v/-v allowed and files near the definition-module threshold are not judged.",
          "DESIGN.md section 4 C02"),
+
+ "C16": ("runtime monitoring: boundary trace of `thailint srp` on generated classes/structs with known public-method count, LOC and name; exact verdict + message-content oracle under swept thresholds and per-language overrides",
+         "Held on the executions observed: Python/TS/JS classes and Rust struct+impl with public/private/dunder/constructor/property/static/class/async members, LOC padded to limit-2..limit+2 with blank and comment lines, keyword on/off and custom lists, per-language overrides in yaml/json; evidence counts classes per language and boundary deltas.",
+         "Trusted: renderer ground truth (public methods, non-blank non-comment LOC); constructs the documentation is silent about are not generated.",
+         "DESIGN.md section 4 C16"),
 }
 PENDING = {}
 props = [json.loads(l) for l in open(os.path.join(HERE, "properties.jsonl"))]
